@@ -264,6 +264,10 @@ func runC11(c *wk.Ctx) {
 			}
 		}
 	}
+	if c.Mine(5) {
+		c.Begin(5, "the step-data initialiser panics for one run")
+		c11InitializerPanics(c)
+	}
 	c.Cases(n, func(idx int64, r *wk.Rand) {
 		r0 := *r
 		p := c11BuildPlugin(r)
@@ -871,5 +875,77 @@ func c11ManyRuns(c *wk.Ctx, others int) {
 	}
 	if want := int64(others + 2); inits.Load() != want {
 		c.Violation("C11:initializer-count:many-runs", fmt.Sprintf("%d run IDs were used, the initialiser ran %d times", want, inits.Load()), wit)
+	}
+}
+
+// c11InitializerPanics: the plugin's step-data initialiser panics for one run (its caller recovers, as the ATP server
+// does). Every later call - another run, the same run again, a signal - must still return: decided by the quiescence
+// monitor, not by a timeout.
+func c11InitializerPanics(c *wk.Ctx) {
+	var fail atomic.Bool
+	var inits atomic.Int64
+	empty := func() *schema.ScopeSchema {
+		return gen.Build(&gen.Shape{Kind: gen.KScope, Root: "E", Objects: []*gen.Shape{{Kind: gen.KObject, ID: "E"}}}).(*schema.ScopeSchema)
+	}
+	step := schema.NewCallableStepWithSignals[*c11StepData, any]("ip", empty(),
+		map[string]*schema.StepOutputSchema{"done": schema.NewStepOutputSchema(empty(), nil, false)},
+		map[string]schema.CallableSignal{"note": schema.NewCallableSignal[*c11StepData, any]("note", empty(), nil, func(context.Context, *c11StepData, any) {})}, nil, nil,
+		func() *c11StepData {
+			if fail.Load() {
+				panic("the plugin's initialiser panics for this run")
+			}
+			return &c11StepData{token: inits.Add(1)}
+		},
+		func(context.Context, *c11StepData, any) (string, any) { return "done", map[string]any{} })
+	pl := schema.NewCallableSchema(step)
+	ctx := context.Background()
+	c.Note("step-data initialiser panics for one run, later calls")
+	for _, viaSignal := range []bool{false, true} {
+		fail.Store(true)
+		run := fmt.Sprintf("run-with-failing-initialiser-%v", viaSignal)
+		_, _, _, _ = wk.Guard(func() {
+			if viaSignal {
+				_ = pl.CallSignal(ctx, run, "ip", "note", map[string]any{})
+			} else {
+				_, _, _ = pl.CallStep(ctx, run, "ip", map[string]any{})
+			}
+		})
+		fail.Store(false)
+		var done atomic.Int32
+		var errs atomic.Value
+		go func() {
+			defer done.Add(1)
+			defer func() {
+				if p := recover(); p != nil {
+					errs.Store(fmt.Sprintf("panic: %v", p))
+				}
+			}()
+			if _, _, err := pl.CallStep(ctx, "another-run-"+run, "ip", map[string]any{}); err != nil {
+				errs.Store(err.Error())
+			}
+			if err := pl.CallSignal(ctx, run, "ip", "note", map[string]any{}); err != nil {
+				errs.Store(err.Error())
+			}
+			if _, _, err := pl.CallStep(ctx, run, "ip", map[string]any{}); err != nil {
+				errs.Store(err.Error())
+			}
+		}()
+		mon := rig.Monitor(func() bool { return done.Load() == 1 }, nil, 20*time.Second)
+		c.Count("initializer_panic_rounds")
+		c.CountN("calls", 4)
+		c.Eval(wk.Hash64("initializer-panics", fmt.Sprint(viaSignal)), true)
+		wit := map[string]any{"first_failing_call_was_a_signal": viaSignal}
+		switch mon.Outcome {
+		case "deadlock":
+			wit["goroutines"] = mon.Snap.Detail()
+			c.Violation("C11:calls-block-after-a-panicking-initializer", "after the step-data initialiser panicked for one run (and the caller recovered), later calls on the step never return: every goroutine is blocked", wit)
+			return
+		case "inconclusive":
+			c.Inconclusive("initialiser-panic round: watchdog fired")
+			return
+		}
+		if e := errs.Load(); e != nil {
+			c.Violation("C11:calls-fail-after-a-panicking-initializer", fmt.Sprintf("valid calls after a recovered initialiser panic failed: %v", e), wit)
+		}
 	}
 }
